@@ -261,8 +261,131 @@ def gen_C11(rng, tier):
     return scn
 
 
+def gen_C16(rng, tier):
+    scn = base(rng, 2, 5, p_dep=0.5)
+    n = len(scn["tasks"])
+    scn["cfg"]["orphans"] = True
+    if rng.random() < 0.15:
+        add_failures(rng, scn, 0.25)
+    nruns = rng.randint(1, 4)
+    for i in range(nruns):
+        sub = sorted(rng.sample(range(n), rng.randint(1, n)))
+        plan = simple_plan(rng, n, subset=sub, waits=rng.random() < 0.4)
+        spec = {"xp": "x0", "plan": plan}
+        r = rng.random()
+        if r < 0.2:
+            plan.insert(rng.randint(0, len(plan)), ["raise"])
+        elif r < 0.55:
+            c = rng.random()
+            if c < 0.3:
+                trig = {"event": rng.choice(["xp-enter-call", "xp-entered", "xp-block-end"]), "nth": 1, "own": True,
+                        "delay": rng.choice([0, 0, 1, 2, 3])}
+                spec["crash"] = {"sig": rng.choice(["KILL", "TERM", "INT"]), "trigger": trig}
+            else:
+                spec["crash"] = crash_spec(rng)
+        if i > 0:
+            spec["start"] = {"after_exit": i - 1}
+            if rng.random() < 0.4:
+                spec["start"]["jobs_ended"] = True
+        scn["procs"].append(spec)
+    if rng.random() < 0.3:
+        # a contender entering the same experiment while somebody may hold it
+        sub = sorted(rng.sample(range(n), rng.randint(1, n)))
+        scn["procs"].append({"xp": "x0", "plan": simple_plan(rng, n, subset=sub, waits=False),
+                             "start": {"after_steps": rng.randint(0, 200)}})
+    return scn
+
+
+TAGS = {"m": ["a", "b", "c"], "k": ["u", "v"]}
+
+
+def gen_filter(rng, depth=0):
+    r = rng.random()
+    if depth == 0 and r < 0.35:
+        op = rng.choice(["and", "or"])
+        return [op] + [gen_filter(rng, 1) for _ in range(rng.randint(2, 3))]
+    var = rng.choice(["m", "k", "@state", "@name", "m", "k"])
+    if var == "@state":
+        vals = ["DONE", "ERROR", "RUNNING"]
+    elif var == "@name":
+        vals = ["sim.simtasks.leaf", "sim.simtasks.node", "sim.simtasks.wtask", "sim.simtasks.wnode"]
+    else:
+        vals = TAGS[var] + ["zz"]
+    kind = rng.choice(["eq", "eq", "in", "notin", "re"])
+    if kind == "eq":
+        return ["eq", var, rng.choice(vals)]
+    if kind in ("in", "notin"):
+        return [kind, var, rng.sample(vals, rng.randint(1, min(2, len(vals))))]
+    v = rng.choice(vals)
+    return ["re", var, rng.choice([v, v[:1] + ".*", ".*" + v[-1:], "(" + v + "|zz)"])]
+
+
+def gen_cli_ops(rng, xps):
+    ops = []
+    for _ in range(rng.randint(1, 3)):
+        r = rng.random()
+        if r < 0.6:
+            ops.append({"cmd": "jobs-clean", "filter": gen_filter(rng) if rng.random() < 0.8 else None,
+                        "experiment": rng.choice(xps) if rng.random() < 0.35 else None,
+                        "perform": rng.random() < 0.75, "tags": rng.random() < 0.3})
+        elif r < 0.75:
+            ops.append({"cmd": "jobs-list", "filter": gen_filter(rng) if rng.random() < 0.7 else None,
+                        "experiment": rng.choice(xps) if rng.random() < 0.3 else None, "tags": rng.random() < 0.5})
+        else:
+            ops.append({"cmd": "orphans", "clean": rng.random() < 0.7})
+    return ops
+
+
+def gen_C19(rng, tier):
+    scn = base(rng, 2, 5, p_dep=0.4)
+    n = len(scn["tasks"])
+    for t in scn["tasks"]:
+        t["tags"] = {name: rng.choice(vals) for name, vals in TAGS.items() if rng.random() < 0.8}
+    add_failures(rng, scn, rng.choice([0.0, 0.3, 0.5]))
+    relaunch = rng.random() < 0.35
+    if relaunch:
+        x = rng.randrange(n)
+        scn["tasks"][x]["out"] = [rng.choice(["exit1", "exc"]), "ok"]
+    xps = ["x0", "x1"] if rng.random() < 0.5 else ["x0"]
+    nruns = rng.randint(1, 3)
+    for i in range(nruns):
+        sub = sorted(rng.sample(range(n), rng.randint(1, n)))
+        plan = simple_plan(rng, n, subset=sub, waits=rng.random() < 0.4)
+        spec = {"xp": rng.choice(xps), "plan": plan}
+        r = rng.random()
+        if r < 0.15:
+            plan.insert(rng.randint(0, len(plan)), ["raise"])
+        elif r < 0.25:
+            spec["crash"] = crash_spec(rng, sigs=("KILL", "TERM"))
+        if i > 0:
+            spec["start"] = {"after_exit": i - 1}
+            if rng.random() < 0.5:
+                spec["start"]["jobs_ended"] = True
+        scn["procs"].append(spec)
+    concurrent = rng.random() < 0.45
+    ncli = rng.randint(1, 2)
+    for j in range(ncli):
+        spec = {"kind": "cli", "ops": gen_cli_ops(rng, xps)}
+        if j > 0:
+            # CLI commands are issued one after the other (two concurrent cleaners only make
+            # one of them stop with FileNotFoundError, which is not what is claimed)
+            spec["start"] = {"after_exit": len(scn["procs"]) - 1}
+        elif concurrent:
+            spec["start"] = rng.choice([
+                {"after_event": "spawn", "nth": rng.randint(1, 4), "delay": rng.choice([0, 0, 1, 2, 4])},
+                {"after_event": "body-start", "nth": rng.randint(1, 3), "delay": rng.choice([0, 1, 3])},
+                {"after_event": "proc-exit", "nth": rng.randint(1, 3), "delay": rng.choice([0, 1, 3])},
+                {"after_steps": rng.randint(20, 250)},
+            ])
+        else:
+            spec["start"] = {"after_exit": nruns - 1, "jobs_ended": True}
+        scn["procs"].append(spec)
+    maybe_trace(rng, scn, 0.3 if concurrent else 0.0)
+    return scn
+
+
 PROFILES = {
-    "C04": gen_C04, "C05": gen_C05, "C06": gen_C06, "C07": gen_C07, "C08": gen_C08, "C09": gen_C09, "C11": gen_C11,
+    "C04": gen_C04, "C05": gen_C05, "C06": gen_C06, "C07": gen_C07, "C08": gen_C08, "C09": gen_C09, "C11": gen_C11, "C16": gen_C16, "C19": gen_C19,
 }
 
 
